@@ -8,6 +8,7 @@ pub mod c08;
 pub mod c09;
 pub mod c10;
 pub mod c11;
+pub mod c12;
 pub mod c13;
 pub mod c14;
 pub mod c15;
@@ -19,6 +20,15 @@ pub mod c20;
 
 /// entry for internal child-process sub-commands
 pub fn child_main(args: &[String]) -> i32 {
+    if args.first().map(|s| s.as_str()) == Some("--c12-write-seeds") {
+        return c12::write_seeds(&args[1..]);
+    }
+    if args.first().map(|s| s.as_str()) == Some("--c12-e2e-child") {
+        return c12::e2e_child_main(&args[1..]);
+    }
+    if args.first().map(|s| s.as_str()) == Some("--c12-child") {
+        return c12::child_main(&args[1..]);
+    }
     if args.first().map(|s| s.as_str()) == Some("--c19-child") {
         return c19::child_main(&args[1..]);
     }
